@@ -179,13 +179,15 @@ def run(case, drv) -> Outcome:
         elif r < 0.75:
             which = rng.choice(['cg', 'adam', 'lbfgs'])
             b = torch.randn(3, 2)
-            x0 = torch.randn(3, 2)
+            # start values that are leaves of the caller's graph (requires_grad=True) are inputs like any other
+            x0 = torch.randn(3, 2).requires_grad_(which != 'cg' and rng.random() < 0.5)
+            which_rg = f'{which}(start requires_grad)' if x0.requires_grad else which
             if which == 'cg':
                 calls.append(('cg', lambda o, b, x0: cg(o, b, initial_value=x0, max_iterations=4), H, None, (b, x0)))
             elif which == 'adam':
-                calls.append(('adam', lambda o, b, x0: adam(lambda x: ((o(x)[0] - b) ** 2).sum().reshape(1), (x0,), max_iter=3)[0], H, None, (b, x0)))
+                calls.append((which_rg, lambda o, b, x0: adam(lambda x: ((o(x)[0] - b) ** 2).sum().reshape(1), (x0,), max_iter=3)[0], H, None, (b, x0)))
             else:
-                calls.append(('lbfgs', lambda o, b, x0: lbfgs(lambda x: ((o(x)[0] - b) ** 2).sum().reshape(1), (x0,), max_iter=3)[0], H, None, (b, x0)))
+                calls.append((which_rg, lambda o, b, x0: lbfgs(lambda x: ((o(x)[0] - b) ** 2).sum().reshape(1), (x0,), max_iter=3)[0], H, None, (b, x0)))
         elif r < 0.9:
             which = rng.choice(['direct', 'sense', 'regsense', 'regsense_nocsm', 'prewhiten', 'walsh', 'inati'])
             if which == 'direct':
@@ -218,6 +220,10 @@ def run(case, drv) -> Outcome:
             else:
                 calls.append(('kdata.compress_coils', lambda o: o.compress_coils(1), kd, None, ()))
     if case.get('sweep'):
+        for nm, solver in (('adam', adam), ('lbfgs', lbfgs)):
+            for rg_ in (False, True):
+                calls.append((f'{nm}(start requires_grad={rg_})', lambda o, b, x0, solver=solver: solver(lambda x: ((o(x)[0] - b) ** 2).sum().reshape(1), (x0,), max_iter=3)[0],
+                              H, None, (torch.randn(3, 2), torch.randn(3, 2).requires_grad_(rg_))))
         for k, f in funs.items():
             for which in ('forward', 'prox', 'prox_convex_conj'):
                 for sk in ('py', 'tensor0', 'tensor', 'tensor_tiny'):
